@@ -26,6 +26,8 @@ def gen_cases(tier, seed):
         cases.append({"part": "eltwise", "shard": i, "nshards": n, "seed": seed, "tier": tier})
     for i in range(n):
         cases.append({"part": "records", "seed": seed * 9001 + i, "n": 6 if q else 30})
+    for i in range(n):
+        cases.append({"part": "regs", "seed": seed * 9011 + i, "lists": 30 if q else 120})
     return cases
 
 
@@ -330,8 +332,21 @@ def run_records(case):
     return {"violations": list(viol.values()), "counters": counters, "keys": ["records"] if counters["scale_records_checked"] else [], "sample": {"part": "records", "records": counters["scale_records_checked"]}}
 
 
+def run_regs(case):
+    """OFM_SCALE / OPA_SCALE / OPB_SCALE as emitted: lists of ADD / SUB / MUL operations with identical, one-ulp-apart, nearly equal, power-of-two related and
+    tiny scales go through the public command stream generator; the decoded registers are compared with the reference derivation (expected-register model of
+    checks.c06 / vv.expect); only scaling differences are counted here"""
+    from checks import c06
+
+    res = c06.run_direct(dict(case, focus="eltwise-scales"))
+    viol = [dict(v, mech="registers:" + v["mech"]) for v in res["violations"] if "scale" in v["mech"] or "op_to_scale" in v["mech"]]
+    c = res["counters"]
+    return {"violations": viol, "counters": {"register_ops_decoded": c.get("ops_decoded", 0), "register_lists": c.get("lists", 0)}, "keys": ["regs"] if c.get("ops_decoded") else [],
+            "sample": {"part": "regs", "ops": c.get("ops_decoded", 0)}}
+
+
 def run_case(case):
-    return {"scale": run_scale, "pool": run_pool, "eltwise": run_eltwise, "records": run_records}[case["part"]](case)
+    return {"scale": run_scale, "pool": run_pool, "eltwise": run_eltwise, "records": run_records, "regs": run_regs}[case["part"]](case)
 
 
 def summarise(agg, tier):
@@ -339,7 +354,8 @@ def summarise(agg, tier):
     return {
         "thresholds": {"scale_evaluations": 100000 if q else 10000000, "pool_windows": 2000 if q else 3000, "pool_accumulators": 1000000 if q else 5000000,
                        "eltwise_triples": 50000 if q else 1000000, "equal_scale_triples": 5000 if q else 100000,
-                       "record_compilations": 80 if q else 1500, "scale_records_checked": 20000 if q else 400000},
+                       "record_compilations": 80 if q else 1500, "scale_records_checked": 20000 if q else 400000,
+                       "register_ops_decoded": 3000 if q else 50000},
         "rule": "scale part: float32 mantissa sweep for 6 exponents (strided in quick), 181 exponents x sampled mantissas, boundaries, random doubles, each as "
                 "python float / np.float64 / np.float32; pool part: every window 1..1024 + sampled up to 65536, all reachable accumulators for small windows, ties beyond; "
                 "eltwise part: random (s1,s2,s_out) triples incl. equal scales, 8- and 16-bit; records part: packed 10-byte scale records of real compilations against "
